@@ -183,9 +183,10 @@ def dec_scalar(sc):
 
 
 def scalar_tag(sc):
+    """coarse class of a scalar: py-int / py-float / py-bool / np-bool / np-number (any other numpy scalar)"""
     if "py" in sc:
         return "py-" + type(sc["py"]).__name__
-    return "np-" + sc["np"]
+    return "np-bool" if sc["np"] == "bool" else "np-number"
 
 
 def scalars_for(tier):
